@@ -8,7 +8,7 @@ import string
 from typing import Dict, List, Optional, Set
 
 from .. import AnalysisError
-from ..paths import U, describe_path, walk_shared
+from ..paths import U, describe_path, strip_tags, walk_shared
 from ..report import Finding, RuleResult
 from .common import calls_in, is_param, kwarg
 
@@ -657,4 +657,109 @@ def run_values(ctx) -> RuleResult:
     if n == 0:
         raise AnalysisError("ndpoly.values: no return found")
     result.floor = 1
+    return result
+
+
+def run_terms(ctx) -> RuleResult:
+    """R-TERMS - the term accessors range over every key: ``ndpoly.coefficients`` and ``ndpoly.exponents`` are computed
+    from ``self.keys`` unfiltered (a key that is skipped is a term that silently disappears from every consumer:
+    alignment, arithmetic, printing), and ``todict`` maps every exponent row to its own coefficient array unconverted
+    (a filtered or converted dict cannot rebuild shape / dtype / the zero polynomial)."""
+    result = RuleResult(
+        "R-TERMS",
+        "ndpoly.coefficients / ndpoly.exponents are computed from all of self.keys; todict pairs every exponent row with its "
+        "coefficient array itself (no filter, no conversion of the values)",
+    )
+    module = ctx.repo.module("numpoly.baseclass")
+    # -- coefficients: the loop that fills the result iterates self.keys itself
+    func = ctx.repo.function(module.name, "ndpoly.coefficients")
+    loops = [n for n in ast.walk(func) if isinstance(n, (ast.For, ast.comprehension))]
+    if not loops:
+        raise AnalysisError("ndpoly.coefficients: no loop over the keys")
+    n = 0
+    for path in ctx.paths(module, func, max_iter=1):
+        for step in path:
+            if step.kind != "iter" or not isinstance(step.node, ast.For):
+                continue
+            it = strip_tags(step.expand(step.node.iter))
+            text = U(it)
+            if "keys" not in text:
+                continue
+            n += 1
+            core = it
+            if isinstance(core, ast.Call) and isinstance(core.func, ast.Name) and core.func.id in ("enumerate", "list", "tuple") and core.args:
+                core = core.args[0]
+            ok = U(core) == "πself.keys"
+            result.ob("ndpoly.coefficients iterates self.keys unfiltered", ok, module.loc(step.orig), text[:80])
+            if not ok:
+                result.add(Finding(
+                    "R-TERMS", module, "ndpoly.coefficients", step.node.iter,
+                    f"the coefficient list is built from '{text[:80]}', not from all of self.keys: a key that is left out is a term "
+                    f"that silently disappears (key strings are arbitrary code points - digits, superscripts and other "
+                    f"categories all occur as exponent encodings)",
+                    derivation=describe_path(path), construct="ndpoly.coefficients: keys filtered"))
+    if n == 0:
+        raise AnalysisError("ndpoly.coefficients: key loop not recognised")
+    # -- exponents: the uint32 view is taken of self.keys itself
+    func = ctx.repo.function(module.name, "ndpoly.exponents")
+    m = 0
+    for path in ctx.paths(module, func, max_iter=1):
+        last = path[-1]
+        if last.kind != "return" or last.node.value is None:
+            continue
+        value = strip_tags(last.expand(last.node.value))
+        views = [c for c in ast.walk(value) if isinstance(c, ast.Call) and isinstance(c.func, ast.Attribute)
+                 and c.func.attr == "view" and "uint32" in U(c)]
+        if not views:
+            raise AnalysisError("ndpoly.exponents: no uint32 view in the returned value")
+        m += 1
+        base = views[0].func.value
+        while isinstance(base, ast.Call) and isinstance(base.func, ast.Attribute) and base.func.attr in ("astype", "copy", "ravel", "flatten"):
+            base = base.func.value
+        ok = U(base) == "πself.keys"
+        result.ob("ndpoly.exponents decodes self.keys unfiltered", ok, module.loc(last.orig), U(base)[:80])
+        if not ok:
+            result.add(Finding(
+                "R-TERMS", module, "ndpoly.exponents", last.node,
+                f"the exponent matrix is decoded from '{U(base)[:80]}', not from all of self.keys: rows are missing for the keys "
+                f"left out, so every consumer loses those terms",
+                derivation=describe_path(path), construct="ndpoly.exponents: keys filtered"))
+    if m == 0:
+        raise AnalysisError("ndpoly.exponents: no return path")
+    # -- todict
+    func = ctx.repo.function(module.name, "ndpoly.todict")
+    t = 0
+    for node in ast.walk(func):
+        if not isinstance(node, ast.DictComp):
+            continue
+        t += 1
+        gen = node.generators[0] if len(node.generators) == 1 else None
+        if gen is None:
+            raise AnalysisError("ndpoly.todict: nested dict comprehension")
+        it_text = U(gen.iter)
+        paired = isinstance(gen.iter, ast.Call) and isinstance(gen.iter.func, ast.Name) and gen.iter.func.id == "zip" \
+            and len(gen.iter.args) == 2 and ".exponents" in U(gen.iter.args[0]) and ".coefficients" in U(gen.iter.args[1])
+        if not paired:
+            raise AnalysisError(f"ndpoly.todict: iteration idiom not recognised: {it_text[:80]}")
+        unfiltered = not gen.ifs
+        result.ob("todict keeps every term (no filter)", unfiltered, module.loc(node), it_text[:80])
+        if not unfiltered:
+            result.add(Finding(
+                "R-TERMS", module, "ndpoly.todict", node,
+                f"todict drops terms ('if {U(gen.ifs[0])[:60]}'): the dictionary of an identically-zero polynomial is empty and "
+                f"cannot regenerate its shape, dtype or value (polynomial(p.todict(), names=p.names) must equal p)",
+                construct="todict: terms filtered"))
+        cvar = gen.target.elts[1].id if isinstance(gen.target, ast.Tuple) and len(gen.target.elts) == 2 \
+            and isinstance(gen.target.elts[1], ast.Name) else None
+        plain = cvar is not None and isinstance(node.value, ast.Name) and node.value.id == cvar
+        result.ob("todict stores the coefficient array itself", plain, module.loc(node), U(node.value)[:60])
+        if not plain:
+            result.add(Finding(
+                "R-TERMS", module, "ndpoly.todict", node,
+                f"todict stores '{U(node.value)[:60]}' instead of the coefficient array: converted values (tolist / item / float) lose "
+                f"the coefficient dtype, so polynomial(p.todict(), names=p.names) comes back with numpy's default dtype",
+                construct="todict: coefficient converted"))
+    if t == 0:
+        raise AnalysisError("ndpoly.todict: dict comprehension not found")
+    result.floor = 4
     return result
